@@ -957,7 +957,13 @@ where
                 next_victim = DeqNode::next_node_ptr(victim);
                 let vic_elem = &unsafe { victim.as_ref() }.element;
 
-                if let Some(vic_entry) = cache.get(vic_elem.key()) {
+                // An entry with a pending update (dirty) is not a potential victim: the
+                // weight in its entry info is the weight of the queued update, not the one
+                // that has been counted for it. Skip it, as the eviction and expiration
+                // loops do, until its write op has been applied.
+                let vic_entry = cache.get(vic_elem.key()).filter(|e| !e.is_dirty());
+
+                if let Some(vic_entry) = vic_entry {
                     victims.add_policy_weight(vic_entry.policy_weight());
                     victims.add_frequency(freq, vic_elem.hash());
                     victim_nodes.push(victim);
